@@ -383,7 +383,8 @@ func generateOTPURL(kind string, param URLParam, extraParams map[string]string) 
 		return nil, ErrSecretRequired
 	}
 
-	label := url.PathEscape(fmt.Sprintf("%s:%s", param.Issuer, param.AccountName))
+	// url.URL.Path holds the unescaped path; String() escapes it exactly once.
+	label := fmt.Sprintf("%s:%s", param.Issuer, param.AccountName)
 
 	query := url.Values{}
 	query.Set("secret", param.Secret)
